@@ -79,7 +79,7 @@ PROPS = {
     "C06": {
         "level": "fault_enumeration",
         "build": "plain",
-        "tiers": tiers(260, 70, 9000, 1200),
+        "tiers": tiers(520, 80, 9000, 1200),
         "exhaustive_claim": False,
         "distinct_measure": "distinct (fault kind, storage call index, history) triples executed plus distinct (operation, canonical model state) pairs",
         "rule": "world enum: histories of 3-9 operations (AddFact with ttl/expires/deleteWith, RemFact with cascades, AddRule, RemRule, EnableRule, SetParents, "
@@ -260,7 +260,7 @@ PROPS = {
     "C12": {
         "level": "exploration",
         "build": "instr",
-        "tiers": tiers(3000, 90, 100000, 1200, gomaxprocs=4, race=(1500, 90, 40000, 900)),
+        "tiers": tiers(4000, 100, 100000, 1200, gomaxprocs=4, race=(1500, 90, 40000, 900)),
         "distinct_measure": "distinct (operation list, pre-emption points, number of task switches) triples, i.e. distinct interleavings actually executed",
         "rule": "2-8 simulated clients issue 1-4 operations each (at most 14 in all) - AddFact/RemFact/GetFact/SearchFacts on 3 shared fact ids with unique values, "
                 "AddRule/RemRule/EnableRule on 2 shared rule ids, ProcessEvent - against one location (indexed or linear state, memory storage behind SimStorage). "
